@@ -46,7 +46,7 @@ static Em* emp[MAXE]; static Li* lip[MAXL];       // addresses kept for the dump
 static Act script[MAXL][NSLOT][MAXA]; static int nscript[MAXL][NSLOT];
 static int cur_e[64], cur_sg[64];
 static char logbuf[1 << 16]; static size_t loglen;
-static char trbuf[1 << 18]; static size_t trlen;      // internal data of the emitting signal at every slot entry / exit
+static char trbuf[1 << 23]; static size_t trlen;      // internal data of the emitting signal at every slot entry / exit
 
 static bool parse_act(char** v, int n, Act& a)
 {
@@ -86,13 +86,14 @@ static void perform(const Act& a)
 // flags along the chain of activations (innermost first), read through the access override
 static void snapshot(char tag, int e, int sg)
 {
-  if(trlen > sizeof(trbuf) - 2048) { printf("?trace-overflow\n"); abort(); }
+  if(trlen > sizeof(trbuf) - 4096) { printf("?trace-overflow\n"); abort(); }
   trlen += snprintf(trbuf + trlen, sizeof(trbuf) - trlen, "%s%c%d.%d:", trlen ? " " : "", tag, e, sg);
   if(!em[e]) { trlen += snprintf(trbuf + trlen, sizeof(trbuf) - trlen, "x"); return; }
   Map<Callback::MemberFuncPtr, Callback::Emitter::SignalData>::Iterator it = em[e]->signalData.find(Callback::MemberFuncPtr(sigs[sg]));
   if(it == em[e]->signalData.end()) { trlen += snprintf(trbuf + trlen, sizeof(trbuf) - trlen, "x"); return; }
   bool first = true;
-  for(List<Callback::Emitter::Slot>::Iterator i = it->slots.begin(), end = it->slots.end(); i != end && trlen < sizeof(trbuf) - 1024; ++i) {
+  for(List<Callback::Emitter::Slot>::Iterator i = it->slots.begin(), end = it->slots.end(); i != end; ++i) {
+    if(trlen > sizeof(trbuf) - 4096) { printf("?trace-overflow\n"); abort(); }
     int l = -1; for(int k = 0; k < nl; ++k) if((Callback::Listener*)lip[k] == i->receiver) l = k;
     int s = -1; for(int k = 0; k < NSLOT; ++k) if(Callback::MemberFuncPtr(slts[k]) == i->slot) s = k;
     trlen += snprintf(trbuf + trlen, sizeof(trbuf) - trlen, "%s%d.%d%s", first ? "" : ",", l, s,
